@@ -372,11 +372,25 @@ impl Archive {
         // Get file size
         let file_size = file.metadata()?.len();
 
+        // A valid archive ends with the footer and its 8-byte length
+        if file_size < 8 {
+            anyhow::bail!("Not an AGC archive: file has only {file_size} bytes (truncated?)");
+        }
+
         // Read footer size (last 8 bytes)
         file.seek(SeekFrom::End(-8))?;
         let mut footer_size_bytes = [0u8; 8];
         file.read_exact(&mut footer_size_bytes)?;
         let footer_size = u64::from_le_bytes(footer_size_bytes);
+
+        // The footer must fit in the file. Without this check a truncated or damaged
+        // file makes `file_size - 8 - footer_size` wrap around (a panic with overflow
+        // checks) and `vec![0; footer_size]` below request a garbage-sized buffer.
+        if footer_size > file_size - 8 {
+            anyhow::bail!(
+                "Corrupted or truncated AGC archive: footer size {footer_size} exceeds file size {file_size}"
+            );
+        }
 
         // Seek to start of footer
         file.seek(SeekFrom::Start(file_size - 8 - footer_size))?;
